@@ -21,7 +21,12 @@ using namespace asmjit;
 // =========================================================================================================
 // IR
 // =========================================================================================================
-enum Kind : uint8_t { KG = 0, KX = 1, KY = 2, KZ = 3, KK = 4, KW = 5 };   // gp native (64-bit; pointer), xmm, ymm, zmm, k-mask, gp32
+enum Kind : uint8_t { KG = 0, KX = 1, KY = 2, KZ = 3, KK = 4, KW = 5,   // gp native (64-bit; pointer), xmm, ymm, zmm, k-mask, gp32 (UInt32)
+                      K8S = 6, K8U = 7, K16S = 8, K16U = 9, K32S = 10, K64S = 11 };   // typed narrow / signed GP virtual registers (argument marshalling)
+static inline bool is_gp_kind(Kind k) { return k == KG || k >= KW; }
+static inline int gp_bits(Kind k) { switch (k) { case K8S: case K8U: return 8; case K16S: case K16U: return 16; case KW: case K32S: return 32; default: return 64; } }
+static inline bool gp_signed(Kind k) { return k == K8S || k == K16S || k == K32S || k == K64S; }
+static inline uint64_t bits_mask(int bits) { return bits >= 64 ? ~0ull : ((1ull << bits) - 1); }
 static int lanes_of(Kind k) { return k == KX ? 2 : k == KY ? 4 : k == KZ ? 8 : 1; }
 
 #define C05_OPS(X) \
@@ -62,6 +67,9 @@ struct Prog {
   int K = 0, Kx = 0, Kk = 0;                 // size of the shrunk GP / vector / mask file (0 = full)
   bool avx = false, avx512 = false; int nstk = 0;
   bool w32 = false;                          // data values are 32-bit virtual registers (kind KW); calls/return use 32-bit types
+  int stk_align = 8;                         // alignment of the new_stack() variable
+  std::vector<int> arg_tid;                  // declared type of each function argument: 0 = natural type of the bound register, 16 = Int16 (narrower than the register)
+  std::vector<int> call10_ptype;             // marshalling call (fn 10): declared parameter types (bits, negative = signed) of its 10 parameters
   int newval(Kind k, const std::string& n) { kinds.push_back(k); names.push_back(n); return int(kinds.size()) - 1; }
 };
 
@@ -169,7 +177,7 @@ static void* fn_ptr(int fn, bool w32) { return fn == 0 ? (void*)c05_callee0 : fn
 // REFERENCE INTERPRETER (the oracle): evaluates the IR directly.
 // =========================================================================================================
 struct Val { uint64_t q[8] = {0, 0, 0, 0, 0, 0, 0, 0}; };
-struct Input { uint64_t sel = 0, cnt = 0; uint64_t a[7] = {}; uint64_t m[8] = {}; };
+struct Input { uint64_t sel = 0, cnt = 0; uint64_t a[13] = {}; uint64_t m[8] = {}; };
 struct Outcome { uint64_t ret = 0; std::vector<uint8_t> mem; std::vector<CallRec> calls; bool ok = true; std::string why; };
 
 static inline int64_t sx(uint64_t v, int bits) { uint64_t m = 1ull << (bits - 1); v &= (bits == 64 ? ~0ull : ((1ull << bits) - 1)); return int64_t((v ^ m) - m); }
@@ -183,7 +191,8 @@ static void interp(const Prog& p, const Input& in, uint64_t mem_ptr, Outcome& ou
   for (int i = 0; i < p.nargs; i++) {
     int vi = p.arg_val[size_t(i)]; if (vi < 0) continue;
     v[size_t(vi)].q[0] = i == 0 ? mem_ptr : i == 1 ? in.sel : i == 2 ? in.cnt : in.a[i - 3];
-    if (p.kinds[size_t(vi)] == KW) v[size_t(vi)].q[0] &= 0xFFFFFFFFull;
+    if (size_t(i) < p.arg_tid.size() && p.arg_tid[size_t(i)] == 16) v[size_t(vi)].q[0] = uint64_t(sx(v[size_t(vi)].q[0], 16));   // an int16_t argument bound to a wider register is sign extended
+    v[size_t(vi)].q[0] &= bits_mask(gp_bits(p.kinds[size_t(vi)]));
   }
   std::vector<int> lpos(size_t(p.nlabels), -1);
   for (size_t k = 0; k < p.code.size(); k++) if (p.code[k].op == O_LABEL) lpos[size_t(p.code[k].lbl)] = int(k);
@@ -200,7 +209,12 @@ static void interp(const Prog& p, const Input& in, uint64_t mem_ptr, Outcome& ou
     uint64_t b = Bq ? Bq[0] : 0, c = Cq ? Cq[0] : 0;
     uint64_t imm = uint64_t(I.imm);
     int L = I.a >= 0 ? lanes_of(p.kinds[size_t(I.a)]) : 1;
-    const int W = ((I.a >= 0 && p.kinds[size_t(I.a)] == KW) || (I.a < 0 && I.b >= 0 && p.kinds[size_t(I.b)] == KW)) ? 32 : 64;   // operation width
+    auto k32 = [&](int x) { return x >= 0 && is_gp_kind(p.kinds[size_t(x)]) && gp_bits(p.kinds[size_t(x)]) == 32; };
+    // "equalized" operations take all their register operands at one width: 32 bits as soon as one of them is a 32-bit virtual register
+    // (the 32-bit view of a 64-bit register is used; a full write through that view zero extends the 64-bit register)
+    const bool equalized = I.op == O_MOV || I.op == O_ADD || I.op == O_SUB || I.op == O_XOR || I.op == O_AND || I.op == O_OR || I.op == O_IMUL2 || I.op == O_XCHG || I.op == O_LEA || I.op == O_IMUL3 || I.op == O_MUL || I.op == O_IMUL1;
+    const int W = (k32(I.a) || (I.a < 0 && k32(I.b)) || (equalized && (k32(I.b) || k32(I.c)))) ? 32 : 64;   // operation width
+    if (equalized && W == 32) { b &= 0xFFFFFFFFull; c &= 0xFFFFFFFFull; }
     const uint64_t WM = W == 32 ? 0xFFFFFFFFull : ~0ull; const int WB = W / 8;
     auto m32 = [](uint64_t x) { return x & 0xFFFFFFFFull; };
     auto lane32 = [](uint64_t x, uint64_t y, int op) { uint32_t xl = uint32_t(x), xh = uint32_t(x >> 32), yl = uint32_t(y), yh = uint32_t(y >> 32), rl, rh;
@@ -323,7 +337,15 @@ static void interp(const Prog& p, const Input& in, uint64_t mem_ptr, Outcome& ou
       case O_JT: if (A[0] >= I.lbls.size()) { fail("reference: jump table index out of range"); break; } pc = size_t(lpos[size_t(I.lbls[size_t(A[0])])]); break;
       case O_CALL: {
         CallRec r; r.fn = I.fn;
-        for (int x : I.args) r.args.push_back(x <= -1000 ? uint64_t(-1000 - x) : v[size_t(x)].q[0]);
+        for (size_t ai = 0; ai < I.args.size(); ai++) {
+          int x = I.args[ai];
+          uint64_t val = x <= -1000 ? uint64_t(-1000 - x) : v[size_t(x)].q[0];
+          if (I.fn == 10 && x >= 0) {   // marshalling: the value is extended according to the signedness of the SOURCE register, the callee sees the parameter's width
+            Kind sk = p.kinds[size_t(x)]; if (gp_signed(sk)) val = uint64_t(sx(val, gp_bits(sk)));
+            int pt = p.call10_ptype[ai]; val &= bits_mask(pt < 0 ? -pt : pt);
+          }
+          r.args.push_back(val);
+        }
         uint64_t rv = callee_value(I.fn, r.args.data(), int(r.args.size())) & (p.w32 ? 0xFFFFFFFFull : ~0ull);
         out.calls.push_back(r);
         if (A) A[0] = rv;
@@ -332,10 +354,10 @@ static void interp(const Prog& p, const Input& in, uint64_t mem_ptr, Outcome& ou
       case O_RET: out.ret = A[0] & WM; return;
       default: fail("reference: unknown op"); break;
     }
-    // 32-bit virtual registers hold 32 bits
-    if (I.a >= 0 && p.kinds[size_t(I.a)] == KW) v[size_t(I.a)].q[0] &= 0xFFFFFFFFull;
-    if (I.b >= 0 && p.kinds[size_t(I.b)] == KW) v[size_t(I.b)].q[0] &= 0xFFFFFFFFull;
-    if (I.c >= 0 && p.kinds[size_t(I.c)] == KW) v[size_t(I.c)].q[0] &= 0xFFFFFFFFull;
+    // a full write at 32 bits zero extends a 64-bit destination
+    if (equalized && W == 32) { if (I.a >= 0) v[size_t(I.a)].q[0] &= 0xFFFFFFFFull; if ((I.op == O_MUL || I.op == O_IMUL1 || I.op == O_XCHG) && I.b >= 0) v[size_t(I.b)].q[0] &= 0xFFFFFFFFull; }
+    // narrow virtual registers hold their width
+    for (int x : {I.a, I.b, I.c}) if (x >= 0 && is_gp_kind(p.kinds[size_t(x)])) v[size_t(x)].q[0] &= bits_mask(gp_bits(p.kinds[size_t(x)]));
   }
   if (out.ok) fail("reference: fell off the end");
 }
@@ -362,13 +384,16 @@ struct EmitX86 {
   x86::KReg Kr(int i) { return kr[size_t(i)]; }
   x86::Mem M(int64_t off, int sz) { x86::Mem m = x86::ptr(g[0], int32_t(off)); m.set_size(uint32_t(sz)); return m; }
   x86::Mem S(int64_t slot, int sz) { x86::Mem m = stk.clone_adjusted(slot * 8); m.set_size(uint32_t(sz)); return m; }
-  int WB(int v) const { return (p.kinds[size_t(v)] == KW || is32) ? 4 : 8; }
-  TypeId arg_type(int v) const { return v >= 0 && p.kinds[size_t(v)] == KG ? TypeId::kUIntPtr : (p.w32 || is32) ? TypeId::kUInt32 : TypeId::kUInt64; }
+  int WB(int v) const { return is32 ? 4 : gp_bits(p.kinds[size_t(v)]) / 8; }
+  TypeId arg_type(int v) const { return v >= 0 && p.kinds[size_t(v)] == KG ? TypeId::kUIntPtr : (v >= 0 && gp_bits(p.kinds[size_t(v)]) == 32) ? TypeId::kUInt32 : (p.w32 || is32) ? TypeId::kUInt32 : TypeId::kUInt64; }
+  // operand views of an "equalized" operation: 32-bit views as soon as one operand is a 32-bit virtual register
+  bool any32(const Ins& I) const { for (int x : {I.a, I.b, I.c}) if (x >= 0 && is_gp_kind(p.kinds[size_t(x)]) && gp_bits(p.kinds[size_t(x)]) == 32) return true; return false; }
+  x86::Gp Q(int v, bool m32) { return m32 ? g[size_t(v)].r32() : g[size_t(v)]; }
 
   void build() {
     is32 = cc.arch() == Arch::kX86;
     FuncSignature sig; sig.set_ret((p.w32 || is32) ? TypeId::kUInt32 : TypeId::kUInt64); sig.set_call_conv_id(CallConvId::kCDecl);
-    for (int i = 0; i < p.nargs; i++) sig.add_arg(arg_type(p.arg_val[size_t(i)]));
+    for (int i = 0; i < p.nargs; i++) sig.add_arg(size_t(i) < p.arg_tid.size() && p.arg_tid[size_t(i)] == 16 ? TypeId::kInt16 : arg_type(p.arg_val[size_t(i)]));
     fn = cc.add_func(sig);
     if (!fn) { E(Error::kOutOfMemory); return; }
     if (p.K) {
@@ -385,6 +410,12 @@ struct EmitX86 {
       switch (p.kinds[i]) {
         case KG: g[i] = is32 ? cc.new_gp32("%s", nm) : cc.new_gp64("%s", nm); break;
         case KW: g[i] = cc.new_gp32("%s", nm); break;
+        case K8S: g[i] = cc.new_reg<x86::Gp>(TypeId::kInt8, "%s", nm); break;
+        case K8U: g[i] = cc.new_reg<x86::Gp>(TypeId::kUInt8, "%s", nm); break;
+        case K16S: g[i] = cc.new_reg<x86::Gp>(TypeId::kInt16, "%s", nm); break;
+        case K16U: g[i] = cc.new_reg<x86::Gp>(TypeId::kUInt16, "%s", nm); break;
+        case K32S: g[i] = cc.new_reg<x86::Gp>(TypeId::kInt32, "%s", nm); break;
+        case K64S: g[i] = cc.new_reg<x86::Gp>(TypeId::kInt64, "%s", nm); break;
         case KX: vx[i] = cc.new_xmm("%s", nm); break;
         case KY: vx[i] = cc.new_ymm("%s", nm); break;
         case KZ: vx[i] = cc.new_zmm("%s", nm); break;
@@ -393,7 +424,7 @@ struct EmitX86 {
     }
     for (int i = 0; i < p.nargs; i++) if (p.arg_val[size_t(i)] >= 0) fn->set_arg(size_t(i), g[size_t(p.arg_val[size_t(i)])]);
     for (int i = 0; i < p.nlabels; i++) labels.push_back(cc.new_label());
-    if (p.nstk) stk = cc.new_stack(uint32_t(p.nstk) * 8, 8);
+    if (p.nstk) stk = cc.new_stack(std::max<uint32_t>(uint32_t(p.nstk) * 8, uint32_t(p.stk_align)), uint32_t(p.stk_align));
     for (size_t k = 0; k < p.code.size(); k++) { cur = int(k); ins(p.code[k]); }
     E(cc.end_func());
     for (auto& t : tables) { E(cc.bind(t.tbl)); for (int l : t.lbls) E(cc.embed_label_delta(labels[size_t(l)], t.tbl, 4)); }
@@ -404,14 +435,14 @@ struct EmitX86 {
     Kind ka = a >= 0 ? p.kinds[size_t(a)] : KG;
     bool vex = ka != KX && (ka == KY || ka == KZ);
     switch (I.op) {
-      case O_MOV: E(cc.mov(G(a), G(b))); break;
+      case O_MOV: { bool m = any32(I); E(cc.mov(Q(a, m), Q(b, m))); break; }
       case O_MOV32: E(cc.mov(G(a).r32(), G(b).r32())); break;
       case O_MOVI: E(cc.mov(G(a), imm)); break;
-      case O_ADD: E(cc.add(G(a), G(b))); break;
-      case O_SUB: E(cc.sub(G(a), G(b))); break;
-      case O_XOR: E(cc.xor_(G(a), G(b))); break;
-      case O_AND: E(cc.and_(G(a), G(b))); break;
-      case O_OR: E(cc.or_(G(a), G(b))); break;
+      case O_ADD: { bool m = any32(I); E(cc.add(Q(a, m), Q(b, m))); break; }
+      case O_SUB: { bool m = any32(I); E(cc.sub(Q(a, m), Q(b, m))); break; }
+      case O_XOR: { bool m = any32(I); E(cc.xor_(Q(a, m), Q(b, m))); break; }
+      case O_AND: { bool m = any32(I); E(cc.and_(Q(a, m), Q(b, m))); break; }
+      case O_OR: { bool m = any32(I); E(cc.or_(Q(a, m), Q(b, m))); break; }
       case O_ADD32: E(cc.add(G(a).r32(), G(b).r32())); break;
       case O_SUB32: E(cc.sub(G(a).r32(), G(b).r32())); break;
       case O_XOR32: E(cc.xor_(G(a).r32(), G(b).r32())); break;
@@ -426,7 +457,7 @@ struct EmitX86 {
       case O_XORI32: E(cc.xor_(G(a).r32(), int32_t(imm))); break;
       case O_ANDI32: E(cc.and_(G(a).r32(), int32_t(imm))); break;
       case O_ORI32: E(cc.or_(G(a).r32(), int32_t(imm))); break;
-      case O_LEA: if (c >= 0) E(cc.lea(G(a), x86::ptr(G(b), G(c), uint32_t(I.sz), int32_t(imm)))); else E(cc.lea(G(a), x86::ptr(G(b), int32_t(imm)))); break;
+      case O_LEA: { bool m = any32(I); if (c >= 0) E(cc.lea(Q(a, m), x86::ptr(Q(b, m), Q(c, m), uint32_t(I.sz), int32_t(imm)))); else E(cc.lea(Q(a, m), x86::ptr(Q(b, m), int32_t(imm)))); break; }
       case O_SHL: E(cc.shl(G(a), G(b).r8())); break;
       case O_SHR: E(cc.shr(G(a), G(b).r8())); break;
       case O_SAR: E(cc.sar(G(a), G(b).r8())); break;
@@ -437,10 +468,10 @@ struct EmitX86 {
       case O_ROLI: E(cc.rol(G(a), imm)); break;
       case O_RORI: E(cc.ror(G(a), imm)); break;
       case O_SHLI32: E(cc.shl(G(a).r32(), imm)); break;
-      case O_IMUL2: E(cc.imul(G(a), G(b))); break;
-      case O_IMUL3: E(cc.imul(G(a), G(b), imm)); break;
-      case O_MUL: E(cc.mul(G(a), G(b), G(c))); break;
-      case O_IMUL1: E(cc.imul(G(a), G(b), G(c))); break;
+      case O_IMUL2: { bool m = any32(I); E(cc.imul(Q(a, m), Q(b, m))); break; }
+      case O_IMUL3: { bool m = any32(I); E(cc.imul(Q(a, m), Q(b, m), imm)); break; }
+      case O_MUL: { bool m = any32(I); E(cc.mul(Q(a, m), Q(b, m), Q(c, m))); break; }
+      case O_IMUL1: { bool m = any32(I); E(cc.imul(Q(a, m), Q(b, m), Q(c, m))); break; }
       case O_CQO: E(cc.cqo(G(a), G(b))); break;
       case O_IDIV: E(cc.idiv(G(a), G(b), G(c))); break;
       case O_CDQ: E(cc.cdq(G(a).r32(), G(b).r32())); break;
@@ -463,14 +494,14 @@ struct EmitX86 {
       case O_NEG: E(cc.neg(G(a))); break;
       case O_NOT: E(cc.not_(G(a))); break;
       case O_INC32: E(cc.inc(G(a).r32())); break;
-      case O_LOAD: if (I.sz == 8) E(cc.mov(G(a).r64(), M(imm, 8))); else if (I.sz == 4) E(cc.mov(G(a).r32(), M(imm, 4))); else E(cc.movzx(G(a).r32(), M(imm, I.sz))); break;
+      case O_LOAD: if (gp_bits(p.kinds[size_t(a)]) < 32) E(cc.mov(G(a), M(imm, I.sz))); else if (I.sz == 8) E(cc.mov(G(a).r64(), M(imm, 8))); else if (I.sz == 4) E(cc.mov(G(a).r32(), M(imm, 4))); else E(cc.movzx(G(a).r32(), M(imm, I.sz))); break;
       case O_STORE: E(cc.mov(M(imm, I.sz), I.sz == 8 ? G(a).r64() : I.sz == 4 ? G(a).r32() : I.sz == 2 ? G(a).r16() : G(a).r8())); break;
       case O_ADDM: E(cc.add(G(a), M(imm, WB(a)))); break;
       case O_ADDST: E(cc.add(M(imm, WB(a)), G(a))); break;
       case O_BTSET: E(cc.bt(G(b), G(c))); E(cc.setc(G(a).r8())); break;
       case O_SETLT: E(cc.cmp(G(b), G(c))); E(cc.setl(G(a).r8())); break;
       case O_CMOVLT: E(cc.cmp(G(b), G(c))); E(cc.cmovl(G(a), G(b))); break;
-      case O_XCHG: E(cc.xchg(G(a), G(b))); break;
+      case O_XCHG: { bool m = any32(I); E(cc.xchg(Q(a, m), Q(b, m))); break; }
       case O_STKST: E(cc.mov(S(imm, WB(a)), G(a))); break;
       case O_STKLD: E(cc.mov(G(a), S(imm, WB(a)))); break;
       case O_STKADD: E(cc.add(G(a), S(imm, WB(a)))); break;
@@ -1413,7 +1444,7 @@ static std::vector<Input> inputs_for(int shape) {
   std::vector<Input> out;
   for (uint64_t s : sels) for (uint64_t cn : cnts) for (int t = 0; t < 4; t++) {
     Input in; in.sel = s; in.cnt = cn;
-    for (int i = 0; i < 7; i++) in.a[i] = data[t][(i + 3) % 8];
+    for (int i = 0; i < 13; i++) in.a[i] = data[t][(i + 3) % 8] + uint64_t(i >= 7 && t ? 0x100 * i : 0);
     for (int i = 0; i < 8; i++) in.m[i] = data[t][i] + uint64_t(t ? i : 0);
     out.push_back(in);
   }
